@@ -32,3 +32,9 @@ pub use resource_quota::*;
 pub use system_hardware::*;
 
 pub mod pal;
+
+/// Verification hooks for out-of-tree harnesses (`--cfg folo_verif` only).
+#[cfg(all(folo_verif, target_os = "linux", not(miri)))]
+pub mod __verif {
+    pub use crate::pal::verif_linux::*;
+}
